@@ -145,6 +145,9 @@ func genKeySet(r *rng, shape int, identOnly bool) (keys [][]byte, special [][]by
 			ab = []byte{identAlpha[10+r.intn(53)], identAlpha[10+r.intn(53)]}
 			if ab[0] == ab[1] {
 				ab[1] = '_'
+				if ab[0] == '_' {
+					ab[1] = 'z' // two DISTINCT letters: with one letter the key set below could never be filled
+				}
 			}
 		}
 		if shape == 4 {
